@@ -3,6 +3,8 @@ package main
 import (
 	"fmt"
 	"go/types"
+	"os"
+	"runtime/debug"
 	"sort"
 	"strings"
 
@@ -10,11 +12,11 @@ import (
 )
 
 type Violation struct {
-	ID     string            // assertion id (with cause class), or "panic@<ctx>", "deadlock@<ctx>", "unwind@<ctx>"
-	Detail string
-	Model  map[string]string // raw solver values of every symbol of the path condition
-	Path   []bool
-	Unknown bool             // solver could not decide (inconclusive, not a violation)
+	ID      string // assertion id (with cause class), or "panic@<ctx>", "deadlock@<ctx>", "unwind@<ctx>"
+	Detail  string
+	Model   map[string]string // raw solver values of every symbol of the path condition
+	Path    []bool
+	Unknown bool // solver could not decide (inconclusive, not a violation)
 }
 
 type rowGhost struct {
@@ -26,36 +28,39 @@ type rowGhost struct {
 type assertStat struct{ reached, discharged, violated, unknown int }
 
 type Run struct {
-	eng       *Engine
-	solver    *Solver
-	prefix    []bool
-	decisions []bool
-	pc        []*Term
-	globals   map[*ssa.Global]*Value
-	seq       map[string]int
-	steps     int
-	pending   [][]bool
-	coros     []*coroObj
-	coroStack []*coroObj
-	ghost     map[string]rowGhost
-	memo      map[string]StrV
-	cs        *concState
-	fsCalls   []Value
-	fsKinds   []Value
-	gorPanic  any
-	gwritten  map[*ssa.Global]bool
-	cancelCtx *ctxObj
-	schedSeeded bool
-	schedState  uint64
-	cancelAt  int
-	cliVals   map[string]Value
-	cliCalls  StrV
-	cliOut    StrV
+	eng                        *Engine
+	solver                     *Solver
+	prefix                     []bool
+	decisions                  []bool
+	pc                         []*Term
+	globals                    map[*ssa.Global]*Value
+	seq                        map[string]int
+	steps                      int
+	pending                    [][]bool
+	coros                      []*coroObj
+	coroStack                  []*coroObj
+	ghost                      map[string]rowGhost
+	bbufs                      map[Ptr]*bbufState
+	unknowns                   int     // undecided feasibility queries on this path
+	soft                       []*Term // preferences for counterexample / witness models (never part of a verdict)
+	memo                       map[string]StrV
+	cs                         *concState
+	fsCalls                    []Value
+	fsKinds                    []Value
+	gorPanic                   any
+	gwritten                   map[*ssa.Global]bool
+	cancelCtx                  *ctxObj
+	schedSeeded                bool
+	schedState                 uint64
+	cancelAt                   int
+	cliVals                    map[string]Value
+	cliCalls                   StrV
+	cliOut                     StrV
 	cliLibFailed, cliRunFailed bool
-	ctxLabel  string
-	symbols   []*Term // every fresh symbol created on this path, in creation order
-	observed  []obs
-	notes     []string
+	ctxLabel                   string
+	symbols                    []*Term // every fresh symbol created on this path, in creation order
+	observed                   []obs
+	notes                      []string
 
 	asserts    map[string]*assertStat
 	reached    map[string]int
@@ -84,9 +89,22 @@ func (r *Run) feasible(t *Term) bool {
 	if t.Op == "false" {
 		return false
 	}
+	// an undecided feasibility query keeps the branch (sound for exploration), but a path on which the solver keeps
+	// giving up is not worth 2 x 20 s per further branch: after the first unknown the path's queries get a short
+	// timeout and no retry, and after maxUnknownPerPath of them the path is given up as undecided
+	r.solver.quick = r.unknowns > 0
 	res, _ := r.solver.check(append(append([]*Term{}, r.pc...), t), false, nil)
+	r.solver.quick = false
+	if res == "unknown" {
+		r.unknowns++
+		if r.unknowns > maxUnknownPerPath {
+			panic(unsupported("solver could not decide the feasibility of %d branches of this path", r.unknowns))
+		}
+	}
 	return res != "unsat"
 }
+
+const maxUnknownPerPath = 4
 
 func (r *Run) branch(t *Term) bool {
 	if t.Op == "true" {
@@ -136,8 +154,18 @@ func (r *Run) fresh(label string, s Sort) *Term {
 
 const maxViolationsPerPath = 8
 
+// checkModel asks for a model of asserts, first with the soft preferences, then without them.
+func (r *Run) checkModel(asserts []*Term, extra []*Term) (string, map[string]string) {
+	if len(r.soft) > 0 {
+		if res, m := r.solver.altSolver().check(append(append([]*Term{}, asserts...), r.soft...), true, extra); res == "sat" {
+			return res, m
+		}
+	}
+	return r.solver.check(asserts, true, extra)
+}
+
 func (r *Run) model() map[string]string {
-	res, m := r.solver.check(r.pc, true, r.symbols)
+	res, m := r.checkModel(r.pc, r.symbols)
 	if res != "sat" {
 		return nil
 	}
@@ -160,7 +188,7 @@ func (r *Run) assertCond(c BoolV, id string) {
 		r.recordViolation(id, "", r.model())
 		panic(abortPath{"assertion violated on every input of the path: " + id})
 	}
-	res, model := r.solver.check(append(append([]*Term{}, r.pc...), mkNot(c.S)), true, r.symbols)
+	res, model := r.checkModel(append(append([]*Term{}, r.pc...), mkNot(c.S)), r.symbols)
 	switch res {
 	case "unsat":
 		a.discharged++
@@ -283,6 +311,9 @@ func (e *Engine) registerPrims() {
 	}
 	noNL := func(r *Run, t *Term) {
 		r.pc = append(r.pc, mkNot(mk("str.contains", sortBool, t, mkStrLit("\n"))))
+		// opaque strings are shorter than 2^30 bytes: lets the solver refute the integer-overflow guards of
+		// library code (bytes.Buffer.grow and the like) at once instead of timing out on them
+		r.pc = append(r.pc, mk("<=", sortBool, mk("str.len", sortInt, t), mkIntLit(1<<30)))
 	}
 	prim("verifRegister", func(r *Run, fr *frame, a []Value) Value { return nil })
 	prim("verifN", func(r *Run, fr *frame, a []Value) Value { return IntV{C: uint64(int64(r.eng.n))} })
@@ -395,6 +426,10 @@ func (e *Engine) registerPrims() {
 func (e *Engine) registerIntrinsics() {
 	in := e.intrinsics
 	e.registerPrims()
+	e.registerBytesBuffer()
+	e.registerUTF8Intrinsics()
+	e.registerStringsIntrinsics()
+	e.registerAtomicIntrinsics()
 	const G = "github.com/ddddddO/gtree."
 	in["fmt.Sprintln"] = func(r *Run, fr *frame, a []Value) Value {
 		s := StrV{}
@@ -799,6 +834,9 @@ func (e *Engine) runPath(solver *Solver, harness *ssa.Function, prefix []bool, w
 			// is not decided; never a crash of the whole run and never a pass
 			res.status = "unsupported"
 			res.detail = fmt.Sprintf("engine limitation: %v", p)
+			if os.Getenv("VERIF_DEBUG_PANIC") != "" {
+				fmt.Fprintf(os.Stderr, "engine panic: %v\n%s\n", p, debug.Stack())
+			}
 			if len(res.detail) > 160 {
 				res.detail = res.detail[:160]
 			}
@@ -819,7 +857,7 @@ func (r *Run) sample() *Sample {
 	for _, o := range r.observed {
 		extra = append(extra, valueTerms(o.val)...)
 	}
-	res, m := r.solver.check(r.pc, true, extra)
+	res, m := r.checkModel(r.pc, extra)
 	if res != "sat" || m == nil {
 		return nil
 	}
@@ -1075,4 +1113,157 @@ func (r *Run) callBody(caller *frame, pkg, fn string, args []Value) Value {
 type bufWriterObj struct {
 	w   Iface
 	buf StrV
+}
+
+// bytes.Buffer as a stub: the content is a string value (literal, symbolic bytes, opaque atoms), so writes of
+// opaque strings need no symbolic-length byte slices. Cap() is abstract: a fresh integer c with c >= every length
+// the buffer had since the last evaluation, c >= the previous capacity, and c == the previous capacity if the
+// content never outgrew it (the real growth policy is the runtime's; every real run is one of the modelled ones).
+// For counterexample models the solver is asked to prefer c == current length (the smallest legal capacity), so that
+// "capacity above X" in a model means "content longer than X", which the real run then reproduces.
+type bbufState struct {
+	s    StrV
+	capT *Term   // last evaluated capacity (nil: 0)
+	lens []*Term // lengths reached since the last evaluation (Int-sorted terms)
+}
+
+func (r *Run) bbuf(p Value) *bbufState {
+	ptr := p.(Ptr)
+	if r.bbufs == nil {
+		r.bbufs = map[Ptr]*bbufState{}
+	}
+	b := r.bbufs[ptr]
+	if b == nil {
+		b = &bbufState{}
+		r.bbufs[ptr] = b
+	}
+	return b
+}
+
+func (r *Run) intTermOf(v IntV) *Term {
+	if v.S == nil {
+		return mkIntLit(int64(v.C))
+	}
+	if v.S.Sort.Kind == 'I' {
+		return v.S
+	}
+	panic(unsupported("bytes.Buffer length as bit-vector term"))
+}
+
+func (r *Run) bbufAppend(b *bbufState, s StrV) {
+	b.s = concatStr(b.s, s)
+	b.lens = append(b.lens, r.intTermOf(r.strLen(b.s)))
+}
+
+func bytesArg(v Value) StrV {
+	switch p := v.(type) {
+	case BytesOf:
+		return p.S
+	case SliceV:
+		var bs []*Term
+		for _, e := range p.Data {
+			bs = append(bs, e.(IntV).term(8))
+		}
+		return strFromBytes(bs)
+	}
+	panic(unsupported("bytes argument of %T", v))
+}
+
+func (e *Engine) registerBytesBuffer() {
+	in := e.intrinsics
+	in["(*bytes.Buffer).Write"] = func(r *Run, fr *frame, a []Value) Value {
+		s := bytesArg(a[1])
+		r.bbufAppend(r.bbuf(a[0]), s)
+		return Tuple{r.strLen(s), Iface{}}
+	}
+	in["(*bytes.Buffer).WriteString"] = func(r *Run, fr *frame, a []Value) Value {
+		s := a[1].(StrV)
+		r.bbufAppend(r.bbuf(a[0]), s)
+		return Tuple{r.strLen(s), Iface{}}
+	}
+	in["(*bytes.Buffer).WriteByte"] = func(r *Run, fr *frame, a []Value) Value {
+		r.bbufAppend(r.bbuf(a[0]), strFromBytes([]*Term{a[1].(IntV).term(8)}))
+		return Iface{}
+	}
+	in["(*bytes.Buffer).String"] = func(r *Run, fr *frame, a []Value) Value {
+		if a[0].(Ptr) == nil {
+			return strLit("<nil>")
+		}
+		return r.bbuf(a[0]).s
+	}
+	in["(*bytes.Buffer).Bytes"] = func(r *Run, fr *frame, a []Value) Value {
+		s := r.bbuf(a[0]).s
+		if s.hasAtom() {
+			return BytesOf{S: s}
+		}
+		bs := s.bytesTerms()
+		data := make([]Value, len(bs))
+		for i, t := range bs {
+			if t.Op == "bvlit" {
+				data[i] = IntV{C: t.Val}
+			} else {
+				data[i] = IntV{S: t}
+			}
+		}
+		return SliceV{Data: data}
+	}
+	in["(*bytes.Buffer).Len"] = func(r *Run, fr *frame, a []Value) Value { return r.strLen(r.bbuf(a[0]).s) }
+	in["(*bytes.Buffer).Reset"] = func(r *Run, fr *frame, a []Value) Value { r.bbuf(a[0]).s = StrV{}; return nil }
+	in["(*bytes.Buffer).Truncate"] = func(r *Run, fr *frame, a []Value) Value {
+		if n := r.concreteInt(a[1], "Truncate"); n != 0 {
+			panic(unsupported("bytes.Buffer.Truncate(%d)", n))
+		}
+		r.bbuf(a[0]).s = StrV{}
+		return nil
+	}
+	in["(*bytes.Buffer).Grow"] = func(r *Run, fr *frame, a []Value) Value {
+		b := r.bbuf(a[0])
+		b.lens = append(b.lens, mk("+", sortInt, r.intTermOf(r.strLen(b.s)), r.intTermOf(a[1].(IntV))))
+		return nil
+	}
+	in["(*bytes.Buffer).Cap"] = func(r *Run, fr *frame, a []Value) Value {
+		b := r.bbuf(a[0])
+		if len(b.lens) == 0 {
+			if b.capT == nil {
+				return IntV{C: 0}
+			}
+			return IntV{S: b.capT}
+		}
+		c := r.fresh("bufcap", sortInt)
+		fits := []*Term{}
+		for _, l := range b.lens {
+			r.pc = append(r.pc, mk(">=", sortBool, c, l))
+			if b.capT != nil {
+				fits = append(fits, mk("<=", sortBool, l, b.capT))
+			}
+		}
+		if b.capT != nil {
+			r.pc = append(r.pc, mk(">=", sortBool, c, b.capT))
+			all := fits[0]
+			for _, f := range fits[1:] {
+				all = mk("and", sortBool, all, f)
+			}
+			r.pc = append(r.pc, mk("=>", sortBool, all, mkEq(c, b.capT)))
+		}
+		r.pc = append(r.pc, mk("<=", sortBool, c, mkIntLit(1<<40)))
+		// preference for models: the smallest legal capacity
+		r.soft = append(r.soft, mk("<=", sortBool, c, b.lens[len(b.lens)-1]))
+		b.capT = c
+		b.lens = nil
+		return IntV{S: c}
+	}
+	in["(*bytes.Buffer).WriteTo"] = func(r *Run, fr *frame, a []Value) Value {
+		b := r.bbuf(a[0])
+		w := a[1].(Iface)
+		if len(b.s.Segs) == 0 {
+			return Tuple{IntV{C: 0}, Iface{}}
+		}
+		m := r.eng.prog.LookupMethod(w.T, nil, "Write")
+		if m == nil {
+			panic(unsupported("Write method not found on %v", w.T))
+		}
+		res := r.callFunc(fr, m, []Value{w.V, BytesOf{S: b.s}}, nil).(Tuple)
+		b.s = StrV{}
+		return res
+	}
 }
